@@ -136,26 +136,23 @@ Ltac with_bounds :=
     let H := fresh "Hb" in let E := fresh "Eb" in
     pose proof (le_write_bounds m k c cd cv s0) as H; destruct (write_bounds m k c cd cv s0) eqn:E; simpl in H end.
 
+Lemma le_dimcoord_name m ax k c s : le s (snd (dimcoord_name m ax k c s)).
+Proof.
+  unfold dimcoord_name. destruct (fx_dimname (m_var m)).
+  - destruct (a_ncdim ax); destruct (k_ncvar k); try destruct (name_of k c None); apply le_netcdf_name.
+  - destruct (name_of k c None); [apply le_netcdf_name|].
+    destruct (a_ncdim ax); [apply le_refl | apply le_netcdf_name].
+Qed.
+
 Lemma le_write_dimcoord m ax k c s : le s (snd (write_dimcoord m ax k c s)).
 Proof.
   unfold write_dimcoord.
   destruct (match find_seen false c None s with Some e => _ | None => None end) as [r|];
     [simpl; apply le_refl|].
-  destruct (name_of k c None) as [base|].
-  - with_name. with_bounds. simpl.
-    eapply le_trans; [exact Hn|]. eapply le_trans; [|apply le_write_var].
-    eapply le_trans; [|exact Hb]. eapply le_trans; [|apply le_create_dim]. le_same.
-  - destruct (a_ncdim ax) as [d|].
-    + destruct (fx_dimname (m_var m)).
-      * with_name. with_bounds. simpl.
-        eapply le_trans; [exact Hn|]. eapply le_trans; [|apply le_write_var].
-        eapply le_trans; [|exact Hb]. eapply le_trans; [|apply le_create_dim]. le_same.
-      * with_bounds. simpl.
-        eapply le_trans; [|apply le_write_var].
-        eapply le_trans; [|exact Hb]. eapply le_trans; [|apply le_create_dim]. le_same.
-    + with_name. with_bounds. simpl.
-      eapply le_trans; [exact Hn|]. eapply le_trans; [|apply le_write_var].
-      eapply le_trans; [|exact Hb]. eapply le_trans; [|apply le_create_dim]. le_same.
+  pose proof (le_dimcoord_name m ax k c s) as Hn.
+  destruct (dimcoord_name m ax k c s) as [nv s1]. simpl in Hn. with_bounds. simpl.
+  eapply le_trans; [exact Hn|]. eapply le_trans; [|apply le_write_var].
+  eapply le_trans; [|exact Hb]. eapply le_trans; [|apply le_create_dim]. le_same.
 Qed.
 
 Lemma le_write_scalar m k c s : le s (snd (write_scalar m k c s)).
